@@ -143,7 +143,7 @@ let groups_order = ["bank"; "oblig"; "bind"; "index"; "ctx"; "queue"; "req"; "vo
 let lines (atoms : z list) (s : state) (oldlog : int) : (string, string list) Hashtbl.t =
   let g : (string, string list) Hashtbl.t = Hashtbl.create 16 in
   let add grp l = Hashtbl.replace g grp (l :: (try Hashtbl.find g grp with Not_found -> [])) in
-  List.iter (fun a -> add "bank" ("bal " ^ sz a ^ " " ^ sz (bal s (User a)))) atoms;
+  List.iter (fun a -> if not (is_blocked a) then add "bank" ("bal " ^ sz a ^ " " ^ sz (bal s (User a)))) atoms;
   add "bank" ("bal -1 " ^ sz (bal s Escrow));
   add "bank" ("bal -2 " ^ sz (bal s Deposit));
   add "bank" ("bal -3 " ^ sz (bal s FeeColl));
@@ -285,7 +285,7 @@ let gen_lines (atoms : z list) (cfg : params) (s : state) : string list =
   (match zero_height_export cfg s with
    | None -> add "zpanic"
    | Some (s', g3) ->
-     List.iter (fun a -> add ("bal " ^ sz a ^ " " ^ sz (bal s' (User a)))) atoms;
+     List.iter (fun a -> if not (is_blocked a) then add ("bal " ^ sz a ^ " " ^ sz (bal s' (User a)))) atoms;
      add ("bal -1 " ^ sz (bal s' Escrow));
      add ("bal -2 " ^ sz (bal s' Deposit));
      List.iter (fun (c, rc) -> add ("z" ^ ctx_line c rc)) s'.ctxs;
